@@ -44,6 +44,7 @@ PROPS.update({
     },
 })
 
+WPROG = "progress of the writer model (that it FINISHES, without panic or error, on every strictly ascending input with entries below u32::MAX and a total codec) is a hypothesis of the end-to-end theorems, validated on every generated file by byte-exact comparison with the implementation"
 FILE_RULE = "writer configurations: codec in all six (level 0..u32::MAX, zstd <= 19), block size through the public clamped setter {0,1,1023,1024,1025,2048,8192,...} and 16..256 through the unclamped hook, index interval {default,1,2,3,8,random<=64}, index levels {0,1,2,3,4,7,254,255} (+ sweep), 0..400 entries with keys over a 4-symbol alphabet incl. the empty key, 0xFF runs, boundary lengths 127/128/16383/16384, values from empty to larger than a block; non-trivial = file with more blocks than index levels + 2, distinct by file bytes"
 PROPS.update({
     "C01": {
@@ -52,7 +53,7 @@ PROPS.update({
         "rule": FILE_RULE,
         "trusted": ["codec crates (snap, flate2, lz4_flex, zstd): the model's compress/decompress are the table of (uncompressed, compressed) block pairs the codec produced in this run, each checked to decompress back"],
         "assumptions": [],
-        "not_proved": ["the composition for whole files is proved in two halves that are not yet joined: (block level + trailer) for the writer, and C01_scan_forward / C01_scan_backward for every well-formed store of any depth on the reader side (wf_store); the missing link is W: the file emitted by the writer model decodes to a wf_store whose content is the inserted entries — checked on every generated file by the extracted independent decoder and the executable StoreCheck.store_wf, and by byte-exact file comparison"],
+        "not_proved": ["C01_roundtrip is proved end to end on the models for every non-empty strictly ascending input and every configuration (W composed with R); " + WPROG + "; the empty file (root block with no entries) is outside wf_store and is covered by the correspondence only; range/prefix iterators are C04/C05"],
     },
     "C09": {
         "prop_file": "props/C09.v",
@@ -60,7 +61,7 @@ PROPS.update({
         "rule": FILE_RULE + "; each file is also read by the frozen grenad 0.4.7 reader, and the same inputs are written by the 0.4.7 writer (codecs both versions support) and read by the current reader and the model",
         "trusted": ["grenad 0.4.7 from the offline cargo registry as the frozen peer", "codec crates via the per-run compression table"],
         "assumptions": [],
-        "not_proved": ["the last assembly step: from C09_file_structure (frames tile the body, every block loads back, tree invariant TI with last keys and offsets, root last, trailer) to the wf_store hypothesis of the reader theorems (a store indexed by offset with distinct offsets and ascending level sequences) is not yet proved; it is checked on every generated file by the extracted independent decoder and StoreCheck.store_wf"],
+        "not_proved": ["C09_written_file_well_formed (the written file is a wf_store whose content is the inserted entries) is proved; " + WPROG + "; interoperability with grenad 0.4.7 is by differential execution against the frozen crate, not a theorem; the compressed bytes are whatever the codec crate produces (only decompress . compress = id is assumed)"],
     },
     "C15": {
         "prop_file": "props/C15.v",
@@ -82,14 +83,14 @@ PROPS.update({
 
 
 HIST_RULE = "files from the writer-configuration generator biased to tiny unclamped blocks and 1..4 index levels (several blocks at non-root index levels), 0..300 entries; probe keys cover every class: each stored key, key+00, key+FF, key minus last byte, predecessor by last byte, empty, below first, above last, random; non-trivial = file with >= 2 entries and >= 2 operations, distinct by file+history hash"
-READER_TRUST = ["the reader refinement R is proved on the executable model for every well-formed STORE (proofs/ReaderRefine.v: wf_store = every block offset maps to a well-formed parsed block, index items carry last keys and 8-byte offsets, level sequences ascending, offsets of different levels distinct); that the files the writer produces yield such a store (backbone W) is not yet proved — the independent decoder and the per-block predicates check it on every generated file; the executable model is tied to the implementation by results, block-load counts and cached-block fingerprints after every operation"]
+READER_TRUST = ["the reader refinement R is proved on the executable model for every well-formed STORE (proofs/ReaderRefine.v: wf_store = every block offset maps to a well-formed parsed block, index items carry last keys and 8-byte offsets, level sequences ascending, offsets of different levels distinct), and every file the writer model finishes from a non-empty strictly ascending input is proved to be such a store with content = the inserted entries (backbone W: proofs/WriterTree.v, WriterStore.v); the executable models are tied to the implementation by byte-exact files, results, block-load counts and cached-block fingerprints after every operation"]
 PROPS.update({
     "C02": {"prop_file": "props/C02.v", "scenarios": [{"name": "hist-c02"}], "rule": HIST_RULE + "; every seek on a fresh or reset cursor",
             "trusted": READER_TRUST, "assumptions": [],
-            "not_proved": ["C02_seeks is proved for every wf_store (any depth, from any cursor state); missing: W (writer output is a wf_store)"]},
+            "not_proved": ["C02_seeks (every wf_store, any depth, any cursor state) and C02_written_file_seeks (files of the writer model, non-empty input) are proved; " + WPROG + "; seeks on the empty file are covered by the correspondence only"]},
     "C03": {"prop_file": "props/C03.v", "scenarios": [{"name": "hist-c03"}], "rule": HIST_RULE + "; random histories over up to 4 cursors (clones), runs of relative moves followed by absolute moves (the stale-cache shape), with the D2 replay first",
             "trusted": READER_TRUST, "assumptions": ["functional_extensionality_dep (stdlib axiom) in C03_depends_on_loader_only"],
-            "not_proved": ["C03_step / C03_history are proved for every wf_store and every admissible history of one cursor (clones are value copies: each follows its own history); missing: W (writer output is a wf_store); relative moves issued after a None are unspecified by the property and are only shown to keep the cache coherent when they return"]},
+            "not_proved": ["C03_step / C03_history (every wf_store) and C03_written_file_history (files of the writer model) are proved for every admissible history of one cursor (clones are value copies: each follows its own history); " + WPROG + "; relative moves issued after a None are unspecified by the property and are only shown to keep the cache coherent when they return"]},
     "C04": {"prop_file": "props/C04.v", "scenarios": [{"name": "iter-c04"}], "rule": HIST_RULE + "; 24 ranges per file over all 9 bound-kind pairs with equal and inverted bounds forced, both directions",
             "trusted": READER_TRUST, "assumptions": [],
             "not_proved": ["C04_range (collect (range_iter) = filter in_range; reverse = rev): needs R; validated against Spec.range_spec on every query"]},
@@ -98,7 +99,7 @@ PROPS.update({
             "not_proved": ["C05_prefix (collect (prefix_iter) = filter has_prefix; reverse = rev): advance_key and the prefix-interval fact are proved (C05_advance_key_spec); the composition with the cursor needs R; validated against Spec.prefix_spec on every query"]},
     "C16": {"prop_file": "props/C16.v", "scenarios": [{"name": "hist-c16"}], "rule": HIST_RULE + "; block loads (absolute seeks) counted per operation by an instrumented source",
             "trusted": READER_TRUST, "assumptions": [],
-            "not_proved": ["C16_loads is proved for every wf_store; missing: W (writer output is a wf_store)"]},
+            "not_proved": ["C16_loads (every wf_store) and C16_written_file_loads (files of the writer model) are proved; " + WPROG + "; the count is of block loads in the model, tied to the implementation's seeks by the instrumented source of the correspondence"]},
     "C06": {"prop_file": "props/C06.v", "scenarios": [{"name": "merge-c06"}],
             "rule": "0..8 sources over a shared key pool with forced overlap patterns (disjoint, identical, chains, random), empty sources, each source written with its own file configuration; values tagged with their source; order-revealing merge function (concatenation) logging every call, and merge functions failing at a chosen call; non-trivial = >= 2 sources and >= 2 entries, distinct by the source files",
             "trusted": ["sources are modelled by the entry lists their files hold (C01)", "BinaryHeap::pop returns the maximum of a strict total order (std)"], "assumptions": [],
@@ -135,16 +136,16 @@ NOT_APPLICABLE = {}
 
 MANIFEST_TEXT = {
     "C01": {
-        "text": "Proved for all inputs: block-level round trip (C01_block_roundtrip), trailer round trip (C01_open_reports_trailer), and full forward/backward scans of every well-formed store of any index depth return exactly the content in order / in reverse then None (C01_scan_forward, C01_scan_backward, corollaries of the cursor refinement). The remaining link (writer output is such a store) is tied to the code by a byte-exact executable model: every run compares the model writer's file with the real writer's byte for byte for all six codecs, and full forward/backward scans through implementation, model reader and specification.",
+        "text": "Proved for all inputs and configurations on the executable models (C01_roundtrip): whenever the writer model finishes a non-empty strictly ascending input, the file opens with the written trailer (count = inserts, configured codec) and a fresh cursor scans forward exactly the inserted entries then None, backward exactly their reverse then None — composition of the block round trip (C01_block_roundtrip), the trailer round trip, the writer tree invariant over the whole run (W) and the cursor refinement for every well-formed store of any index depth (R: C01_scan_forward, C01_scan_backward). The models are tied to the code byte for byte: every run compares the model writer's file with the real writer's for all six codecs, and full forward/backward scans through implementation, model reader and specification, including the empty file.",
         "design_ref": "DESIGN.md §5 C01, §4 (W, R)",
-        "note": "Partial proof (see evidence.not_proved): whole-file theorem not yet composed. Trusted: kernel; transcription of writer.rs/block*.rs/reader_cursor.rs validated by correspondence; codec crates via per-run compression table; extraction, driver, harness. Axioms: none.",
-        "technique": "Rocq proof (induction over inserts: block writer invariant, parse/decode inversion) + byte-exact model/implementation differential execution",
+        "note": "Whole-file theorem proved on the models; writer progress and the empty file are validated, not proved (see evidence.not_proved). Trusted: kernel; transcription of writer.rs/block*.rs/reader_cursor.rs validated by correspondence; codec crates via per-run compression table (assumed: decompress inverts compress); extraction, driver, harness. Axioms: none.",
+        "technique": "Rocq proof (invariants by induction over inserts for blocks and the index tree, refinement of the multi-level cursor to an abstract cursor, composed end to end) + byte-exact model/implementation differential execution",
     },
     "C09": {
-        "text": "Proved for the whole writer model (C09_file_structure, C09_blocks_load_back): the file is the frames of the emitted blocks (u64 BE compressed length + block) at their recorded offsets followed by the 22-byte trailer, the root block last and named by the trailer, and at every index level the entries are exactly the (last key, u64 BE offset) items of the blocks one level below while the data level spells exactly the inserted entries; plus the layout of every finished block (varint-framed entries, u64 BE offset table with first 0 and one slot per interval, u32 BE count: C09_block_layout), that an independent decoder recovers its entries (C09_block_decodes) and the 22-byte LE trailer layout with magic 0x6723D4C4 (C09_trailer_layout, C09_constants over re-extracted constants). Every run: model file = implementation file byte for byte, the extracted independent tree decoder recovers the inputs, the frozen grenad 0.4.7 reader recovers them, and files written by the 0.4.7 writer are read back by the current reader and the model.",
+        "text": "Proved for the whole writer model (C09_file_structure, C09_blocks_load_back, C09_written_file_well_formed — the file of any finished run on a non-empty ascending input is a well-formed store whose data level is exactly the inserted entries): the file is the frames of the emitted blocks (u64 BE compressed length + block) at their recorded offsets followed by the 22-byte trailer, the root block last and named by the trailer, and at every index level the entries are exactly the (last key, u64 BE offset) items of the blocks one level below while the data level spells exactly the inserted entries; plus the layout of every finished block (varint-framed entries, u64 BE offset table with first 0 and one slot per interval, u32 BE count: C09_block_layout), that an independent decoder recovers its entries (C09_block_decodes) and the 22-byte LE trailer layout with magic 0x6723D4C4 (C09_trailer_layout, C09_constants over re-extracted constants). Every run: model file = implementation file byte for byte, the extracted independent tree decoder recovers the inputs, the frozen grenad 0.4.7 reader recovers them, and files written by the 0.4.7 writer are read back by the current reader and the model.",
         "design_ref": "DESIGN.md §5 C09",
-        "note": "Partial proof (tree-level clause validated, not proved). Trusted: kernel; grenad 0.4.7 as frozen peer; codec crates; extraction, driver, harness. Axioms: none.",
-        "technique": "Rocq proof (format lemmas per block and trailer) + independent extracted decoder + 0.4.7 interop matrix by differential execution",
+        "note": "Format clauses proved on the writer model; 0.4.7 interoperability is by differential execution (see evidence.not_proved). Trusted: kernel; grenad 0.4.7 as frozen peer; codec crates; extraction, driver, harness. Axioms: none.",
+        "technique": "Rocq proof (format lemmas per block and trailer, index-tree invariant over the whole writer run) + independent extracted decoder + 0.4.7 interop matrix by differential execution",
     },
     "C15": {
         "text": "Proved for the whole writer model over any sink and any insert sequence (C15_cut, C15_reached, C15_overshoot, by an invariant over Writer::insert's cascade and into_inner's flush): every emitted data block and index block of level >= 2 was below B before its last insert, every such block emitted while inserting has reached B, none exceeds B by more than one framed entry plus 8 bytes; the size estimate is the exact finished size (C15_size_exact); the clamp is max(1024, s) (C15_constants). Every run evaluates the two cut clauses (size without last entry < B; every non-last block of its level >= B) on every emitted data block and index block of level >= 2 of every generated file, and compares emitted bytes with the model.",
@@ -182,8 +183,8 @@ def _mt(text, ref, note, tech):
     return {"text": text, "design_ref": ref, "note": note, "technique": tech}
 _PARTIAL = " Partial proof: see not_proved in the evidence file. Trusted: Coq kernel; the hand transcription (validated by the correspondence of every run); extraction, OCaml driver, Rust harness."
 MANIFEST_TEXT.update({
-    "C02": _mt("Proved on the executable model: in-block seeks return the exact floor/ceiling on every well-formed block (C02_block_floor, C02_block_ceiling), every block finished by the block writer is well-formed (C02_finished_blocks_wellformed), and the whole multi-level cursor returns the exact ceiling/floor/match of the content from ANY state of ANY well-formed store of any depth (C02_seeks: the ceiling is found through the index because items carry last keys). Every run: every probe class on fresh/reset cursors through implementation, executable model and specification, incl. multi-level files with several blocks per index level and V1/0.4.7-independent layouts.", "DESIGN.md §5 C02", "Axioms: none." + _PARTIAL, "Rocq proof (specification lemmas) + implementation/model/specification differential execution over all probe classes"),
-    "C03": _mt("Proved on the executable model for any index depth (C03_step, C03_history): on every well-formed store the cursor refines the abstract cursor Fresh|At i|Unspec — after ANY history first/last/seeks return the specified entry, next/prev step to the neighbour, current is the last returned entry, and the per-level block cache stays coherent (the invariant the D2 defect broke); plus in-block moves as index moves and the structural lemmas. Every run: random multi-cursor histories with results, per-operation block loads and the fingerprint of every cached block compared between implementation and model after every step, results compared with the abstract cursor wherever it specifies them; the D2 replay runs first.", "DESIGN.md §5 C03", "Axiom: functional_extensionality_dep (stdlib)." + _PARTIAL, "Rocq proof (structural lemmas) + state-level implementation/model correspondence on operation histories + abstract-cursor oracle"),
+    "C02": _mt("Proved on the executable model: in-block seeks return the exact floor/ceiling on every well-formed block (C02_block_floor, C02_block_ceiling), every block finished by the block writer is well-formed (C02_finished_blocks_wellformed), and the whole multi-level cursor returns the exact ceiling/floor/match of the content from ANY state of ANY well-formed store of any depth (C02_seeks: the ceiling is found through the index because items carry last keys), and every file the writer model finishes from a non-empty ascending input is such a store with exactly the inserted content (C02_written_file_seeks). Every run: every probe class on fresh/reset cursors through implementation, executable model and specification, incl. multi-level files with several blocks per index level and V1/0.4.7-independent layouts.", "DESIGN.md §5 C02", "Axioms: none." + _PARTIAL, "Rocq proof (refinement of the multi-level cursor to the abstract cursor, composed with the writer tree invariant) + implementation/model/specification differential execution over all probe classes"),
+    "C03": _mt("Proved on the executable model for any index depth (C03_step, C03_history): on every well-formed store the cursor refines the abstract cursor Fresh|At i|Unspec — after ANY history first/last/seeks return the specified entry, next/prev step to the neighbour, current is the last returned entry, and the per-level block cache stays coherent (the invariant the D2 defect broke); composed with the writer invariant, the same holds on every file the writer model finishes from a non-empty ascending input, with the abstract cursor running over the inserted entries themselves (C03_written_file_history); plus in-block moves as index moves and the structural lemmas. Every run: random multi-cursor histories with results, per-operation block loads and the fingerprint of every cached block compared between implementation and model after every step, results compared with the abstract cursor wherever it specifies them; the D2 replay runs first.", "DESIGN.md §5 C03", "Axiom: functional_extensionality_dep (stdlib)." + _PARTIAL, "Rocq proof (refinement to an abstract cursor by a cache-coherence invariant over operation histories) + state-level implementation/model correspondence on operation histories + abstract-cursor oracle"),
     "C04": _mt("Proved: the specification is the filter by both bounds; shape of the iterator step. Every run: ranges over all bound-kind pairs (equal, inverted, absent, present bounds), forward and reverse, through implementation, model and specification.", "DESIGN.md §5 C04", "Axioms: none." + _PARTIAL, "Rocq proof (specification lemmas) + implementation/model/specification differential execution"),
     "C05": _mt("Proved for all byte strings: advance_key returns None exactly for all-0xFF prefixes and otherwise the exclusive upper end of the interval of keys sharing the prefix (C05_advance_key_spec). Every run: prefixes of every class (empty, 0xFF runs, successor stored, longer than every key) forward and reverse through implementation, model and specification.", "DESIGN.md §5 C05", "Axioms: none." + _PARTIAL, "Rocq proof (induction on the prefix: carry loop, prefix interval) + implementation/model/specification differential execution"),
     "C06": _mt("Proved on the executable model: heap pops remove exactly one element, which sources enter the heap, empty sources yield nothing without a merge call. The full merge theorem is proved on the abstract merger (design-notes). Every run: outputs, the exact sequence of (key, values) the merge function receives, failures of the merge function, and the file produced through a writer, for implementation vs model, plus the three defining clauses evaluated on the implementation's output.", "DESIGN.md §5 C06", "Axioms: none." + _PARTIAL, "Rocq proof (heap lemmas; abstract merge theorem) + implementation/model differential execution with call logging"),
@@ -192,5 +193,5 @@ MANIFEST_TEXT.update({
     "C17": _mt("Proved (partial by nature): the buffer invariant (16-byte granularity, bounds and data regions disjoint, n <= L/16) is preserved by every insert of any size, fits/remaining never underflow, the doubling loop terminates for every usize size, allocation sizes are the rounded sizes. Every run: overflow-checked build, buffer triple compared after every insert, tracking allocator checks dealloc layouts, chunk leak counter.", "DESIGN.md §5 C17", "Axioms: none. Not expressible: aliasing/lifetime soundness of unsafe code, allocator behaviour." + _PARTIAL, "Rocq proof (arithmetic invariant) + overflow-checked differential execution + layout-tracking allocator"),
     "C11": _mt("Proved for every benign schedule: write_all delivers exactly the buffer and counts exactly its length (C11_write_all); a whole writer run over a scheduled sink ends at the same call with the same bytes, count, emitted blocks and trailer as over a plain Vec (C11_write, by parametricity of the writer model in its sink); read_exact and read_to_end-over-Take return exactly the unscheduled bytes for any buffer sizes std offers (C11_read_exact, C11_read_to_end), hence every block load is schedule-independent (C11_block_load). Every run: writer under explicit schedules vs model (bytes and write-call sizes) and vs plain run; histories on all codecs, mergers, sorters under 4 schedules vs unscheduled.", "DESIGN.md §5 C11", "Axioms: none." + _PARTIAL, "Rocq proof (induction on fuel over schedules; relational parametricity of the writer in its sink) + scheduled-vs-plain differential execution"),
     "C12": _mt("Proved for the writer and every fault position: no fault armed => exactly the plain run (C12_quiet); fault armed => the injected error or the plain outcome with a file not reaching the fault position (C12_writer_fault); fault position inside the file or flush fault => Err carrying the injected error, never success, never panic (C12_writer_surface). Every run: exhaustive single-fault enumeration over writer bytes/flush, reader seeks/reads, sorter creates/merge calls/chunk I/O and merger source I/O: implementation vs model (failing call index and error class) and vs the specification (the call in progress when the fault fired returns that error).", "DESIGN.md §5 C12", "Axioms: none." + _PARTIAL, "Rocq proof (relational parametricity with early failure) + exhaustive fault enumeration against model and specification"),
-    "C16": _mt("Proved: open consults only the last 22 bytes whatever the file size (C16_open_reads_only_the_trailer); every specified operation from every state of every well-formed store loads at most 2*(index_levels+2) blocks (C16_loads, from the refinement proof: each walk loads <= levels+2 blocks, LE is two walks). Every run: block loads per operation counted by an instrumented source: implementation <= model <= 2*(levels+2).", "DESIGN.md §5 C16", "Axioms: none." + _PARTIAL, "Rocq proof (trailer locality) + per-operation I/O counting against the model and the bound"),
+    "C16": _mt("Proved: open consults only the last 22 bytes whatever the file size (C16_open_reads_only_the_trailer); every specified operation from every state of every well-formed store loads at most 2*(index_levels+2) blocks (C16_loads, from the refinement proof: each walk loads <= levels+2 blocks, LE is two walks), and so does every admissible history on a written file (C16_written_file_loads: n operations load at most n*2*(levels+2) blocks whatever the number of entries). Every run: block loads per operation counted by an instrumented source: implementation <= model <= 2*(levels+2).", "DESIGN.md §5 C16", "Axioms: none." + _PARTIAL, "Rocq proof (trailer locality; load bound from the cursor refinement) + per-operation I/O counting against the model and the bound"),
 })
